@@ -92,7 +92,11 @@ def from_bipartite_graph(G, dual=False):
             else:
                 H.add_node_to_edge(u, v, direction="out")
         else:
-            H.add_node_to_edge(v, u)
+            # an undirected link may be reported from either end
+            if v in edges:
+                H.add_node_to_edge(v, u)
+            else:
+                H.add_node_to_edge(u, v)
 
     return H.dual() if dual else H
 
